@@ -30,6 +30,8 @@ CARRIED = ['description', 'decision_variables', 'sense', 'constraint_hints', 'de
 PARAM_TY = re.compile(r"^(&('\w+ )?(mut )?)?v1::Parameter$")
 NEVER = re.compile(r'(?!x)x')
 # value-preserving accessors followed when asking "which constraint is this function the function of"
+# the constraint's function as a value: accessor, clones, Cow -> owned, `Option<Function>` defaulted to zero
+OWN_FUNCTION_T = re.compile(r'::(function|as_ref|as_deref|deref|borrow|clone|cloned|into_owned|to_owned|unwrap_or_else|unwrap_or_default|unwrap_or|into|from)(::<.*>)?$')
 FUNC_TRANSPARENT = re.compile(T.TRANSPARENT.pattern.replace('::(as_ref|', '::(function|as_ref|', 1))
 # identity-preserving only (no clone): followed when asking "which object is this"
 REF_TRANSPARENT = re.compile(r'::(as_ref|as_mut|as_deref|deref|deref_mut|borrow|borrow_mut)(::<.*>)?$')
@@ -254,7 +256,8 @@ def vec_of(body, op):
     for _ in range(24):
         l = pl['l']; fs = fields_of_place(pl)
         if fs:
-            if 1 <= l <= body.argc or len(fs) != 1: return None
+            if len(fs) != 1: return None
+            if 1 <= l <= body.argc: return (l, fs[0][1])          # `self.items` of a `mut self` worked on in place
             return (root_of(body, {'k': 'copy', 'pl': {'l': l, 'p': []}})[0], fs[0][1])
         if 1 <= l <= body.argc: return l
         defs = _whole_defs(body, l)
@@ -478,17 +481,25 @@ def fs_backslice(ctx, body, starts, cut=()):
         if n not in seen: seen.add(n); work.append(n)
     for n in starts: push(n)
     oldrefs = old_value_refs(body)
+    def node_local(n_):
+        if isinstance(n_, tuple): return n_[1] if n_[0] in ('w', 'o', 'k', 'W') else n_[0]
+        return n_
     while work:
         n = work.pop()
         fld = None; cur = n
         if isinstance(n, tuple) and n[0] == 'w':
             l, fld, nocut = n[1], n[2], n[3]
-            if not nocut and ((l, fld) in cut or (fld and field_killed(body, l, fld))): continue
+            if not nocut and (l, fld) in cut: continue
             n = l
         elif isinstance(n, tuple) and n[0] == 'o':
             # the field as seen by `mem::take(&mut x.f)` / `mem::replace`: the value it held *before* being overwritten
             l = n[1]; n = (n[1], n[2])
             push(('w', l, n[1], True))
+        elif isinstance(n, tuple) and n[0] == 'k':
+            # the field as read *after* it was overwritten on every path: what was written since, not what the struct came with
+            l = n[1]; n = (n[1], n[2])
+        elif isinstance(n, tuple) and n[0] == 'W':
+            l = n[1]; n = l; fld = False                  # the whole-value edges of a struct whose fields were pushed one by one
         elif isinstance(n, tuple):
             l = n[0]
             push(('w', l, n[1], False))
@@ -502,9 +513,25 @@ def fs_backslice(ctx, body, starts, cut=()):
             if k == 'L':
                 if isinstance(e[3], str) and e[3].startswith(('call:', 'callarg:')) and SCALAR_SUMMARY.search(T.strip_generics_tail(e[3].split(':', 1)[1])): continue
                 src = e[1]; sl = src[0] if isinstance(src, tuple) else src
-                for af in e[2]: s.fields.add(af)
-                if 1 <= sl <= body.argc:
-                    for af in e[2][:1]: s.root_fields.add((sl, af[0], af[1]))
+                # (a read of `x.f` after x.f was emptied / overwritten on every path is not a read of what x.f came with;
+                #  the read through the `&mut` of the take / drain itself is)
+                if e[3] == 'ref' and cur in clear_refs(body): continue          # `x.f.clear()`: the receiver borrow reads no element
+                is_old = e[3] == 'ref' and cur in oldrefs
+                stale = False
+                if isinstance(src, tuple) and len(src) == 2 and isinstance(src[0], int) and not is_old:
+                    stale = killed_at(body, src[0], src[1], read_blocks(body, node_local(cur), src[0], src[1]))
+                from_input = stale and 1 <= (root_of(body, {'k': 'copy', 'pl': {'l': src[0], 'p': []}})[0] or 0) <= body.argc
+                if not from_input:
+                    # (only for the input struct is "field read" a statement about the input; elsewhere it just names the field)
+                    for af in e[2]: s.fields.add(af)
+                    if 1 <= sl <= body.argc:
+                        for af in e[2][:1]: s.root_fields.add((sl, af[0], af[1]))
+                if stale: push(('k', src[0], src[1])); continue
+                if isinstance(src, int) and FN.get(src) and any(strong_field_defs(body, src, fn_[1]) for fn_ in FN[src]):
+                    # the struct read as a whole: each field as of this read
+                    for fn_ in FN[src]:
+                        push(('k',) + fn_ if killed_at(body, src, fn_[1], read_blocks(body, node_local(cur), src, fn_[1])) else fn_)
+                    push(('W', src)); continue
                 if e[3] == 'ref' and isinstance(src, tuple) and cur in oldrefs: push(('o', src[0], src[1]))
                 elif e[3] == 'mutref-back' and src in oldrefs:
                     # what `mem::take` / `mem::replace` wrote through the reference: Default / its second argument
@@ -535,12 +562,34 @@ def fs_backslice(ctx, body, starts, cut=()):
                 S._merge_callee(s, c.path, S.depth, c.name)
             elif k == 'K':
                 s.closures.add(e[1]); s.merge_summary(S.whole_body(e[1], S.depth - 1))
-    s.locals = {((n[1] if n[0] in ('w', 'o') else n[0]) if isinstance(n, tuple) else n) for n in seen}
+    s.locals = {node_local(n) for n in seen}
     s.nodes = seen
+    # a literal hoisted into a named constant (`const KEY: &str = ".."`) is that literal
+    for c_ in list(s.consts):
+        k_ = c_[6:] if c_.startswith('const ') else c_
+        if k_ in S.F.consts: s.consts.add(S.F.consts[k_][1])
     uniq = {}
     for c in s.call_objs: uniq[id(c)] = c
     s.call_objs = list(uniq.values())
     return s
+
+
+def clear_refs(body):
+    """reference locals that only feed `v.clear()`"""
+    r = getattr(body, '_c09_clearrefs', None)
+    if r is None:
+        r = set()
+        for c in body.calls:
+            if c.item != 'clear' or not INHERENT_SEQ_OWNER.search(c.name) or not c.args or c.args[0]['k'] not in ('copy', 'move'): continue
+            l = c.args[0]['pl']['l']
+            for _ in range(6):
+                r.add(l)
+                d = _whole_defs(body, l)
+                if len(d) == 1 and d[0][0] == 'stmt' and d[0][2]['rv']['k'] == 'ref' and not fields_of_place(d[0][2]['rv']['pl']): l = d[0][2]['rv']['pl']['l']
+                elif len(d) == 1 and d[0][0] == 'stmt' and d[0][2]['rv']['k'] == 'use' and d[0][2]['rv']['ops'][0]['k'] in ('copy', 'move') and not d[0][2]['rv']['ops'][0]['pl']['p']: l = d[0][2]['rv']['ops'][0]['pl']['l']
+                else: break
+        body._c09_clearrefs = r
+    return r
 
 
 def old_value_refs(body):
@@ -566,51 +615,71 @@ def strong_field_defs(body, X, f):
     """blocks in which field f of struct local X is given a new value regardless of the old one:
          `x.f = v`;  `mem::take(&mut x.f)` (-> Default);  `mem::replace(&mut x.f, v)`;  `x.f.drain(..)`;  `x.f.clear()`"""
     out = set()
+    Xc = root_of(body, {'k': 'copy', 'pl': {'l': X, 'p': []}})[0]        # `let mut this = self;`: the same struct
     for bi, st in body.stmts():
         d = st['dst']
-        if d['l'] == X and [q for q in d['p'] if q != '*'] and len(d['p']) == 1 and isinstance(d['p'][0], dict) and d['p'][0].get('f') == f: out.add(bi)
+        dp = [q for q in d['p'] if q != '*']
+        if d['l'] == X and len(dp) == 1 and isinstance(dp[0], dict) and dp[0].get('f') == f: out.add(bi)
     for c in body.calls:
-        if (takes_all(body, c) or (c.item == 'clear' and INHERENT_SEQ_OWNER.search(c.name))) and c.args and vec_of(body, c.args[0]) == (X, f):
+        if (takes_all(body, c) or (c.item == 'clear' and INHERENT_SEQ_OWNER.search(c.name))) and c.args and vec_of(body, c.args[0]) in ((X, f), (Xc, f)):
             out.add(c.bb)
     return out
 
 
-def field_killed(body, X, f):
-    """is the value field f got from the definition of the whole struct X overwritten (strong_field_defs) on every
-    path before `X.f` or X as a whole is read?  (reads = direct operands; `&mut X.f` of the overwriting call is not one)"""
-    cache = body.__dict__.setdefault('_c09_killed', {})
-    if (X, f) in cache: return cache[(X, f)]
+def reads_struct(pl, X, f, refs_too=True, is_ref=False):
+    """does a place read struct local X as a whole, or its field f?"""
+    if pl['l'] != X: return False
+    fs = [q for q in pl['p'] if isinstance(q, dict) and 'f' in q]
+    if not fs: return True
+    return fs[0]['f'] == f and (refs_too or not is_ref)
+
+
+def read_blocks(body, reader, X, f):
+    """blocks of the definitions of local `reader` that read X (whole) or X.f; reader None: every read of X as a whole"""
+    out = set()
+    for bi in body.live:
+        blk = body.blocks[bi]
+        for st in blk['st']:
+            if 'rv' not in st: continue
+            if reader is not None and st['dst']['l'] != reader: continue
+            rv = st['rv']
+            if reader is None:
+                if any(o['k'] in ('copy', 'move') and o['pl']['l'] == X and not [q for q in o['pl']['p'] if q != '*'] for o in rv.get('ops', [])): out.add(bi)
+                continue
+            if any(o['k'] in ('copy', 'move') and reads_struct(o['pl'], X, f) for o in rv.get('ops', [])) or ('pl' in rv and reads_struct(rv['pl'], X, f)): out.add(bi)
+        t = blk['term']
+        if t['k'] == 'call':
+            if reader is None:
+                if any(a_['k'] in ('copy', 'move') and a_['pl']['l'] == X and not [q for q in a_['pl']['p'] if q != '*'] for a_ in t['args']): out.add(bi)
+            elif t['dst']['l'] == reader and any(a_['k'] in ('copy', 'move') and reads_struct(a_['pl'], X, f) for a_ in t['args']): out.add(bi)
+    return out
+
+
+def killed_at(body, X, f, bbs):
+    """at every read in blocks `bbs`: has the value field f got with the definition of the whole struct X (for a parameter:
+    at the entry) been overwritten (strong_field_defs) on every path leading there?"""
     strong = strong_field_defs(body, X, f)
-    res = False
-    if strong:
-        def reads(pl, is_ref=False):
-            if pl['l'] != X: return False
-            fs = [q for q in pl['p'] if isinstance(q, dict) and 'f' in q]
-            if not fs: return True                       # the whole struct (moved, copied, borrowed)
-            return fs[0]['f'] == f and not is_ref          # X.f read directly
-        uses = set()
-        for bi in body.live:
-            blk = body.blocks[bi]
-            for st in blk['st']:
-                if 'rv' not in st: continue
-                rv = st['rv']
-                if any(o['k'] in ('copy', 'move') and reads(o['pl']) for o in rv.get('ops', [])): uses.add(bi)
-                if 'pl' in rv and reads(rv['pl'], rv['k'] in ('ref', 'rawptr')): uses.add(bi)
-            t = blk['term']
-            if t['k'] == 'call' and any(a['k'] in ('copy', 'move') and reads(a['pl']) for a in t['args']): uses.add(bi)
-        uses -= strong
-        res = True
-        for k, bi, d in _whole_defs(body, X):
-            if k != 'call' and bi in strong: continue
-            st0 = d['t'] if k == 'call' else bi
-            if st0 is None or st0 < 0 or not T.must_pass(body, st0, uses, strong): res = False
-    cache[(X, f)] = res
-    return res
+    if not strong or not bbs: return False
+    starts = [0] if 1 <= X <= body.argc else []
+    for k, bi, d in _whole_defs(body, X):
+        if k != 'call' and bi in strong: continue
+        starts.append(d['t'] if k == 'call' else bi)
+    if not starts: return False
+    for bb in bbs:
+        if bb in strong:
+            # same block: a strong *statement* precedes the block's later reads (the literal / the return move at its end);
+            # a strong terminator (take / drain call) comes after every statement of its block
+            if body.blocks[bb]['term']['k'] == 'call' and any(c.bb == bb and (takes_all(body, c) or c.item == 'clear') for c in body.calls): return False
+            continue
+        for st0 in starts:
+            if st0 is None or st0 < 0 or not T.must_pass(body, st0, {bb}, strong): return False
+    return True
 
 
 def final_field_slice(ctx, body, X, f):
-    """slice of the value `X.f` holds when X is returned"""
-    return fs_backslice(ctx, body, [(X, f)])
+    """slice of the value `X.f` holds when X is read as a whole (returned, moved on)"""
+    stale = killed_at(body, X, f, read_blocks(body, None, X, f))
+    return fs_backslice(ctx, body, [('k', X, f) if stale else (X, f)])
 
 
 WHOLE_TRANSPARENT = re.compile(r'::(clone|to_vec|to_owned|into|from|into_boxed_slice|into_vec|as_ref|deref|borrow)(::<.*>)?$')
@@ -1062,10 +1131,119 @@ def open_counter_loops(ctx, body):
     return nb
 
 
+def _tuple_elems(ty):
+    ty = ty.strip()
+    if not (ty.startswith('(') and ty.endswith(')')): return None
+    out = []; depth = 0; cur = ''
+    inner = ty[1:-1]
+    for i, ch in enumerate(inner):
+        if ch in '(<[': depth += 1
+        elif ch in ')]' or (ch == '>' and (i == 0 or inner[i - 1] != '-')): depth -= 1
+        if ch == ',' and depth == 0: out.append(cur.strip()); cur = ''
+        else: cur += ch
+    if cur.strip(): out.append(cur.strip())
+    return out
+
+
+def _vec_tuple_shape(ty):
+    """'((Vec<A>, Vec<B>), Vec<C>)' -> [[A', B'], C'] (the Vec type strings); None for anything else"""
+    el = _tuple_elems(ty)
+    if not el or len(el) < 2: return None
+    out = []
+    for e in el:
+        if e.startswith('std::vec::Vec<'): out.append(e)
+        else:
+            sub = _vec_tuple_shape(e)
+            if sub is None: return None
+            out.append(sub)
+    return out
+
+
+def open_unzip(ctx, body):
+    """`it.unzip()` / `it.multiunzip()` / `it.collect::<(Vec<_>, Vec<_>, ..)>()`  ->  one Vec per tuple position and the loop
+    `for t in it { v0.push(t.0); v1.push(t.1); .. }` (closure adaptors below it opened as usual).  After the rewrite of the
+    same consumer in C19.local_form."""
+    from .. import normalize as NZ
+    from ..facts import Body
+    N = NZ.Normalizer(ctx.F, None, True)
+    rw = NZ.Rewriter(body.d); rw.promoted_of = N._promoted_of
+    done_any = False
+    for bi in range(len(rw.blocks)):
+        blk = rw.blocks[bi]; t = blk['term']
+        if blk['cleanup'] or t['k'] != 'call' or t.get('synthetic') or t['t'] < 0: continue
+        ri = t.get('ri') or {}; item = ri.get('item') or ''
+        dst = t['dst']
+        shape = _vec_tuple_shape(rw.locals[dst['l']]) if not dst['p'] else None
+        if item not in ('unzip', 'multiunzip', 'collect') or not re.search(r'iter::Iterator$|Itertools$', ri.get('trait') or '') or shape is None: continue
+        if not t['args'] or t['args'][0]['k'] not in ('copy', 'move') or t['args'][0]['pl']['p']: continue
+        span = t.get('span'); line = (span or {}).get('lo', 0); after = t['t']
+        a = t['args'][0]
+        try:
+            base, chain = N._walk_chain(rw, a['pl']['l'])
+        except Exception:
+            continue
+        N._strip_adaptors(rw, chain)
+        it = rw.new_local('?iter')
+        blk['st'].append(NZ._use(it, a, line))
+        head = rw.new_block(); done = rw.new_block()
+        leaves = []
+        def mk(sh, path):
+            if isinstance(sh, str):
+                cl_ = rw.new_local(sh); leaves.append((path, cl_)); return cl_
+            subs = [mk(x, path + [k]) for k, x in enumerate(sh)]
+            tl_ = rw.new_local('(?)')
+            rw.blocks[done]['st'].append(NZ._agg(tl_, 'tuple', [NZ._mv(x) for x in subs], line=line))
+            return tl_
+        top = [mk(x, [k]) for k, x in enumerate(shape)]
+        cur = bi
+        for path, cl_ in leaves:
+            nb = rw.new_block()
+            rw.blocks[cur]['term'] = NZ.mk_call('std::vec::Vec::<T>::new', 'std::vec::Vec::<T>::new', None, 'std::vec::Vec::<T>', 'new', [], cl_, nb, span)
+            cur = nb
+        rw.goto(cur, head)
+        o, some = N._emit_next(rw, head, it, span, done)
+        entry, last, item_op, cont = N._emit_adaptors(rw, chain, NZ._mv(o, NZ.SOME0), span, head, done)
+        rw.goto(some, entry)
+        il = rw.new_local('(?)')
+        rw.blocks[last]['st'].append(NZ._use(il, item_op, line))
+        cur = last
+        for n_, (path, cl_) in enumerate(leaves):
+            nxt = cont if n_ == len(leaves) - 1 else rw.new_block()
+            N._emit_push(rw, cur, cl_, 'Vec', NZ._mv(il, [{'f': str(k), 'of': 'tuple'} for k in path]), span, nxt)
+            cur = nxt
+        rw.blocks[done]['st'].append(NZ._agg(dst, 'tuple', [NZ._mv(c_) for c_ in top], line=line))
+        rw.goto(done, after)
+        done_any = True
+    if not done_any: return body
+    d = dict(rw.d); d['fn'] = body.name + '#eager'; d['parent'] = body.parent
+    nb = Body(d); nb.facts = ctx.F
+    return nb
+
+
 def open_up(ctx, body):
     """the body with directly called local closures inlined, `map` below `enumerate` opened, and lazily mapped iterators
     handed to draining consumers made explicit"""
-    return eagerise(ctx, open_maps_below_enumerate(ctx, open_result_combinators(ctx, open_counter_loops(ctx, inline_closure_calls(ctx, body)))))
+    return eagerise(ctx, open_unzip(ctx, open_maps_below_enumerate(ctx, open_result_combinators(ctx, open_counter_loops(ctx, inline_closure_calls(ctx, body))))))
+
+
+# `&p * g` is `Linear::from(&p) * g` (parameter.rs): the weight may enter a product as the Parameter itself or converted
+WEIGHT_CONV = re.compile(r'From<&?v1::Parameter> for v1::(Linear|Quadratic|Polynomial|Function)>::from$|^<&?v1::Parameter as std::convert::Into<v1::(Linear|Quadratic|Polynomial|Function)>>::into$'
+                         r'|From<v1::(Linear|Quadratic|Polynomial)> for v1::(Quadratic|Polynomial|Function)>::from$|^<v1::(Linear|Quadratic|Polynomial) as std::convert::Into<v1::(Quadratic|Polynomial|Function)>>::into$')
+
+
+def weight_operand(body, a, depth=4):
+    """the Parameter behind a factor: the operand itself if it is a (&)Parameter, or the argument of the conversion(s)
+    `Linear::from(&p)` / `(&p).into()` / `Function::from(Linear::from(&p))` that made it; None for anything else"""
+    for _ in range(depth):
+        if a['k'] not in ('copy', 'move'): return None
+        if not a['pl']['p'] and PARAM_TY.match(body.locals[a['pl']['l']]): return a
+        r = root_of(body, a)[0]
+        d = _whole_defs(body, r) if r is not None else []
+        if r is not None and PARAM_TY.match(body.locals[r]): return {'k': 'copy', 'pl': {'l': r, 'p': []}}
+        if len(d) == 1 and d[0][0] == 'call' and WEIGHT_CONV.search(d[0][2]['r'] or d[0][2]['f']) and d[0][2]['args']:
+            a = d[0][2]['args'][0]; continue
+        return None
+    return None
 
 
 def is_mul(c):
@@ -1100,6 +1278,10 @@ def check_method(ctx, name, uniform):
     # ---- coverage of the input message
     cover(ctx, 'C09.cover/' + name, body0, INST, exempt=('parameters',))
     body = open_up(ctx, body0)
+    # the property holds for all valid instances: the penalty methods refuse nothing.  On the pinned tree they have no Err-exit
+    # at all (the only way out besides Ok is the overflow panic of the id allocation); any Err-exit is a new refusal
+    errs = sorted(body.err_exits())
+    ctx.check(not errs, 'C09.refusals/%s' % name, 'T-ERRFLOW', fn, 'an Err-exit is reachable (%s): the penalty method refuses some instances' % ', '.join(body.site(b_) for b_ in errs[:3]), body.site())
     results = result_structs(body, 'v1::ParametricInstance')
     if not results:
         ctx.bad('C09.carry/%s/aggregate' % name, 'ANCHOR', fn, 'no Ok-exit returns a v1::ParametricInstance value that can be traced'); return
@@ -1137,8 +1319,7 @@ def check_method(ctx, name, uniform):
                   'C09.objective/%s/always-some' % name, 'T-CARRY', fn, 'the objective of the result is not `Some(..)` on every path (an absent objective must become the penalty alone)', body.site())
         if so is not None:
             # weighted products: a multiplication one operand of which is a Parameter
-            wsites = [(c, a) for c in so.call_objs if is_mul(c) for a in c.args
-                      if a['k'] in ('copy', 'move') and not a['pl']['p'] and PARAM_TY.match(body.locals[a['pl']['l']])]
+            wsites = [(c, a, weight_operand(body, a)) for c in so.call_objs if is_mul(c) for a in c.args if weight_operand(body, a) is not None]
             ctx.check(bool(wsites), 'C09.objective/%s/parameter' % name, 'T-CARRY', fn, 'objective does not depend on a product with a weight parameter', body.site())
             sq = square_sites(ctx, body, so)
             ctx.check(bool(sq), 'C09.objective/%s/square' % name, 'T-CARRY', fn,
@@ -1157,15 +1338,31 @@ def check_method(ctx, name, uniform):
                     probs.append('g*g at %s is not computed in a loop over self.constraints itself' % body.site(c.bb)); continue
                 if not all(L.item in ctx.S.slice_operand(body, a).locals for a in c.args):
                     probs.append('g*g at %s does not square the function of the loop\'s current constraint' % body.site(c.bb)); continue
+                # .. the constraint's *own* function value: reached from the item through the accessor / field, clones and
+                # `None => zero` defaults only — nothing that rewrites it (substitute, partial_evaluate, a scaling) in between.
+                # One factor may already carry the weight: `(&p * g) * g`.
+                def own_function(a_, depth_=2):
+                    r_, fs_, crossed_ = root_of(body, a_, OWN_FUNCTION_T)
+                    if r_ == L.item and (any(re.search(r'impl v1::Constraint>::function$', x_) for x_ in crossed_) or ('v1::Constraint', 'function') in fs_ or any(f_ == 'function' for a2_, f_ in fs_)): return True
+                    d_ = _whole_defs(body, r_) if r_ is not None else []
+                    if depth_ and len(d_) == 1 and d_[0][0] == 'call':
+                        m_ = _callmap(body)[d_[0][1]]
+                        if is_mul(m_):
+                            ws_ = [x_ for x_ in m_.args if weight_operand(body, x_) is not None]
+                            rest_ = [x_ for x_ in m_.args if weight_operand(body, x_) is None]
+                            return len(ws_) == 1 and len(rest_) == 1 and own_function(rest_[0], depth_ - 1)
+                    return False
+                if not all(own_function(a) for a in c.args):
+                    probs.append('g*g at %s squares something computed from the constraint\'s function (rewritten on the way), not the function itself' % body.site(c.bb)); continue
                 by_loop.setdefault(id(L), (L, []))[1].append(c.bb)
             if msites and not probs and not any(T.must_pass(body, L.some_bb, {L.header}, set(bbs)) for L, bbs in by_loop.values()):
                 probs.append('a path through the loop over self.constraints does not pass the product g*g (filtered, or squared in another way)')
             ctx.check(not probs, 'C09.objective/%s/square-of-each-active' % name, 'T-LOOPMUST', fn, '; '.join(probs), body.site())
             if not uniform:
                 # weight_c multiplies g_c: the parameter and the function belong to the same constraint
-                for c, a in wsites:
+                for c, a, pop in wsites:
                     L = innermost(loops, c.bb)
-                    ok, how = parameter_origin(ctx, body, loops, L, a, None)
+                    ok, how = parameter_origin(ctx, body, loops, L, pop, None)
                     if ok:
                         others = [x for x in c.args if x is not a]
                         so2 = ctx.S.slice_operand(body, others[0]) if others else None
@@ -1235,8 +1432,9 @@ def check_method(ctx, name, uniform):
                 if st_ is not None:
                     # the Parameter values whose `.id` is read for the tag (not every Parameter-typed local of the slice: with
                     # `id: base + parameters.len()` the slice runs through the whole vector and the `..Default::default()` base)
-                    cands = sorted({n[0] for n in st_.nodes if isinstance(n, tuple) and len(n) == 2 and n[1] == 'id' and isinstance(n[0], int)
-                                    and PARAM_TY.match(body.locals[n[0]]) and any(b2 in L.blocks for _, b2, _ in body.defs_of(n[0]))})
+                    idn = [(n[0], n[1]) for n in st_.nodes if isinstance(n, tuple) and len(n) == 2 and isinstance(n[0], int)] + \
+                          [(n[1], n[2]) for n in st_.nodes if isinstance(n, tuple) and len(n) == 3 and n[0] == 'k']
+                    cands = sorted({l_ for l_, f_ in idn if f_ == 'id' and PARAM_TY.match(body.locals[l_]) and any(b2 in L.blocks for _, b2, _ in body.defs_of(l_))})
                     verdicts = [parameter_origin(ctx, body, loops, L, {'k': 'copy', 'pl': {'l': l, 'p': []}}, None) for l in cands]
                     ok = bool(verdicts) and all(v[0] for v in verdicts)
                     ctx.check(ok, 'C09.pair/%s/tag' % name, 'T-CARRY', fn, '"parameter_id" does not name the weight of this constraint: %s' %
@@ -1252,6 +1450,7 @@ def check(ctx):
     ctx.floor('C09.wrap', 6)
     ctx.floor('C09.loop', 8)
     ctx.floor('C09.pair', 2)
+    ctx.floor('C09.refusals', 2)
     ctx.floor('C09.parameters', 7)
     ctx.floor('C09.objective', 8)
     ctx.floor('C09.tags', 3)
